@@ -26,3 +26,79 @@ def _run(prog: Program, rep: Report, tier: str) -> None:
     wrappers.check_binary(prog, rep, 'C06-D2 binary-identities')
     from .c06_effects import inplace_discipline
     inplace_discipline(prog, rep)
+    negative_dims(prog, rep)
+    dtype_generic_limits(prog, rep)
+
+
+def negative_dims(prog: Program, rep: Report) -> None:
+    """torch counts a negative `dim` from the end; for operations that *add* an axis (stack, unsqueeze) the end is that of the
+    result, one axis longer.  `list.insert(dim, x)` with a raw negative dim lands one position too far to the left, so the
+    insertion must be preceded by `if dim < 0: dim += <ndim> + 1`."""
+    import ast
+    from ..cfg import cfg_of
+    from ..model import own_nodes, norm
+    rule = 'C06-D4 negative-dim'
+    rep.rule('C06-D4', 'axis-adding operations (stack, unsqueeze) normalise a negative dim with the rank of the result (ndim + 1) before using it as a list insertion index')
+    targets = [prog.func('fggs.indices', 'stack'), prog.func('fggs.indices', 'PatternedTensor.unsqueeze')]
+    n = 0
+    for f in targets:
+        if 'dim' not in f.param_names():
+            continue
+        cfg = cfg_of(f)
+        dom = cfg.dominators()
+        norms = []
+        for k, nd in cfg.nodes.items():
+            if nd.kind == 'test' and isinstance(nd.stmt, ast.If) and norm(nd.expr) in ('dim < 0', '0 > dim'):
+                body = nd.stmt.body
+                if len(body) == 1 and isinstance(body[0], ast.AugAssign) and norm(body[0].target) == 'dim' and isinstance(body[0].op, ast.Add):
+                    v = body[0].value
+                    plus_one = isinstance(v, ast.BinOp) and isinstance(v.op, ast.Add) and any(isinstance(x, ast.Constant) and x.value == 1 for x in (v.left, v.right))
+                    norms.append((k, plus_one, norm(v)))
+        for k, nd in cfg.nodes.items():
+            st = nd.stmt
+            if nd.kind != 'stmt' or st is None:
+                continue
+            for c in [x for x in ast.walk(st) if isinstance(x, ast.Call) and isinstance(x.func, ast.Attribute) and x.func.attr == 'insert' and x.args and norm(x.args[0]) == 'dim']:
+                n += 1
+                doms = [(pk, po, txt) for pk, po, txt in norms if pk in dom.get(k, set())]
+                ok = any(po for _, po, _ in doms)
+                rep.ob(rule, f.fq(), f"{norm(c)[:60]}: dim normalised against the rank of the result", f.loc(c), ok,
+                       f"preceded by `if dim < 0: dim += {doms[0][2]}`" if ok else
+                       ('a negative dim reaches list.insert unchanged: the new axis lands one position left of where torch puts it' if not doms else
+                        f"normalised with `{doms[0][2]}`, which is the rank of the operand, not of the result"))
+    rep.floor('C06-D4', n, 3)
+
+
+def dtype_generic_limits(prog: Program, rep: Report) -> None:
+    """A PatternedTensor's default stands for elements of the physical tensor's dtype: a finite limit that replaces an infinity
+    must be that dtype's limit (torch.finfo(self.physical.dtype)), not the float64 constant sys.float_info.max -- which does
+    not fit a float32 tensor (to_dense() then raises) and differs from what torch gives the stored elements."""
+    import ast
+    from ..model import own_nodes, norm
+    from ..util import parents
+    rule = 'C06-D1 dtype-generic limits'
+    pt = prog.cls('fggs.indices', 'PatternedTensor')
+    n = 0
+    for m in pt.methods.values():
+        pm = None
+        for x in own_nodes(m.node):
+            if isinstance(x, ast.Attribute) and x.attr in ('max', 'min') and norm(x.value) in ('float_info', 'sys.float_info'):
+                n += 1
+                pm = pm or parents(m)
+                p_ = pm.get(id(x))
+                guarded = False
+                while p_ is not None and not isinstance(p_, ast.stmt):
+                    if isinstance(p_, ast.IfExp) and 'dtype' in norm(p_.test):
+                        guarded = True
+                    p_ = pm.get(id(p_))
+                st = p_
+                while st is not None:
+                    if isinstance(st, ast.If) and 'dtype' in norm(st.test):
+                        guarded = True
+                    st = pm.get(id(st))
+                rep.ob(rule, m.fq(), f"{norm(x)} in {m.name}", m.loc(x), guarded,
+                       'only a fallback for non-floating dtypes (guarded by a test of the dtype)' if guarded else
+                       'the float64 limit is stored as the value of unstored elements whatever the dtype of the tensor: on float32 it overflows and disagrees with torch.nan_to_num')
+    rep.analysed['float_info_uses_in_PatternedTensor'] = n
+    ctl = ast.parse("self.default = float_info.max if posinf is None else posinf").body[0]
+    rep.ob(rule, 'positive-control', 'an unguarded float_info.max is recognised', '-', any(isinstance(x, ast.Attribute) and x.attr == 'max' for x in ast.walk(ctl)), '', nontrivial=False)
